@@ -121,3 +121,36 @@ package chainexchange
 //@   modifies auto
 //@   maypanic
 
+
+// The per-instance caches: the cache handed out for an instance is the one registered for that instance (created
+// with the configured capacity the first time), so what is cached for an instance is found again for that instance.
+//@ func (*PubSubChainExchange).getChainsWantedAt
+//@   property C18
+//@   modifies auto
+//@   maypanic
+//@   ensures[the_cache_registered_for_the_instance_is_returned] has(p.chainsWanted, instance) && p.chainsWanted[instance] == result
+//@   ensures[an_existing_cache_is_kept] old(has(p.chainsWanted, instance)) ==> result == old(p.chainsWanted[instance])
+//@   ensures[caches_of_other_instances_are_untouched] forall(uint64(k), k != instance ==> has(p.chainsWanted, k) == old(has(p.chainsWanted, k)) && p.chainsWanted[k] == old(p.chainsWanted[k]), trigger(p.chainsWanted[k]))
+//@   at newChainPortionCache 1
+//@     before[a_new_wanted_cache_has_the_wanted_capacity] arg(1) == p.maxWantedChainsPerInstance
+
+//@ func (*PubSubChainExchange).getChainsDiscoveredAt
+//@   property C18
+//@   modifies auto
+//@   maypanic
+//@   ensures[the_cache_registered_for_the_instance_is_returned] has(p.chainsDiscovered, instance) && p.chainsDiscovered[instance] == result
+//@   ensures[an_existing_cache_is_kept] old(has(p.chainsDiscovered, instance)) ==> result == old(p.chainsDiscovered[instance])
+//@   ensures[caches_of_other_instances_are_untouched] forall(uint64(k), k != instance ==> has(p.chainsDiscovered, k) == old(has(p.chainsDiscovered, k)) && p.chainsDiscovered[k] == old(p.chainsDiscovered[k]), trigger(p.chainsDiscovered[k]))
+//@   at newChainPortionCache 1
+//@     before[a_new_discovered_cache_has_the_discovered_capacity] arg(1) == p.maxDiscoveredChainsPerInstance
+
+// An own broadcast is queued for caching as wanted (the node asked for it by proposing it) and what is published is
+// the encoding of exactly that message.
+//@ func (*PubSubChainExchange).Broadcast
+//@   property C18
+//@   modifies auto
+//@   maypanic
+//@   at Encode 1
+//@     before[the_message_itself_is_encoded] *arg(0) == msg && recv() == p.encoding
+//@   at Publish 1
+//@     before[what_is_published_is_that_encoding] arg(2) == res(Encode, 1, 0) && res(Encode, 1, 1) == nil && arg(0) == p.topic
